@@ -12,7 +12,7 @@ WORK="$HERE/sim/target/selftest.$$"
 mkdir -p "$WORK"
 cp "$HERE/known_findings.txt" "$WORK/" 2>/dev/null
 fail=0
-for P in C06 C07 C10 C11 C12 C15 C18 C19; do
+for P in ${DET_PROPS:-C06 C07 C10 C11 C12 C15 C18 C19}; do
   for S in "${SEEDS[@]}"; do
     ref=""
     for W in 1 4 16 16; do
@@ -33,7 +33,25 @@ PY
         fail=1
       fi
     done
-    echo "determinism $P seed=$S cases=$RUNS workers=1,4,16,16: $( [ $fail -eq 0 ] && echo identical || echo SEE ABOVE )"
+    # process history must not be an input either: a sample of cases, each as the only case of a fresh
+    # process, must give the digest it had in the middle of the batch
+    FRESH="${DET_FRESH:-60}"
+    python3 - "$BIN" "$P" "$S" "$reffile" "$FRESH" "$WORK" <<'PY' || fail=1
+import json,subprocess,sys,os
+binp,prop,seed,ref,fresh,work=sys.argv[1:7]
+ref=dict(map(tuple,json.load(open(ref))))
+bad=[]
+idx=sorted(ref)[:int(fresh)]
+for i in idx:
+    out=os.path.join(work,"fresh.json")
+    env=dict(os.environ,VERIF_DIGEST="1",TZ="UTC")
+    subprocess.run([binp,"worker",prop,seed,"0",str(i),"1000000000",str(i+1),out],env=env,check=True)
+    d=dict(map(tuple,json.load(open(out))["digests"]))
+    if d.get(i)!=ref[i]: bad.append(i)
+if bad:
+    print("NONDETERMINISM property=%s seed=%s: cases %s give another digest when run alone in a fresh process"%(prop,seed,bad[:10])); sys.exit(1)
+PY
+    echo "determinism $P seed=$S cases=$RUNS workers=1,4,16,16 + $FRESH cases each alone in a fresh process: $( [ $fail -eq 0 ] && echo identical || echo SEE ABOVE )"
   done
 done
 rm -rf "$WORK"
